@@ -341,7 +341,7 @@ pub fn parse_tls_extension_heartbeat_content(i: &[u8]) -> IResult<&[u8], TlsExte
 }
 
 pub fn parse_tls_extension_heartbeat(i: &[u8]) -> IResult<&[u8], TlsExtension> {
-    let (i, _) = tag([0x00, 0x0d])(i)?;
+    let (i, _) = tag([0x00, 0x0f])(i)?;
     let (i, ext_len) = verify(be_u16, |&n| n == 1)(i)?;
     map_parser(take(ext_len), parse_tls_extension_heartbeat_content)(i)
 }
